@@ -103,6 +103,8 @@ def _direct(item):
         p_id = rng.permutation(n) * 3 + int(rng.integers(0, 50))
         if c % 3 == 0:
             p_id = rng.permutation(n)  # exactly 0..n-1 but not in row order (positions are not ids)
+        elif c % 7 == 1:
+            p_id = rng.permutation(n) * 2 + 2 ** 53 + 1  # very large ids, not representable as float64
         ptr = np.where(rng.random(n) < 0.4, -1, p_id[rng.integers(0, n, n)])
         ptr = np.where(rng.random(n) < 0.05, -2, ptr)
         for ck in ("float", "int", "bool"):
